@@ -29,15 +29,15 @@ claimed = {
          "DESIGN.md §4 C18"),
  "C17": ("single-fault enumeration on top of explicit-state exploration: for every explored state and every public operation with an error result, the storage calls of the operation are counted and the operation is re-executed once per call index with exactly that call failing (thorough: also every pair for small read operations)",
          "For every state of a bounded exploration (cache 0, fast index on/off, small flush threshold) and every operation in {Get, Has, GetWithIndex, GetByIndex, Iterate, Iterator(+Error/Close), GetProof, GetVersioned, GetVersionedProof, GetImmutable+reads, ImmutableTree.Iterator, Export/Next, TraverseStateChanges, SaveVersion, DeleteVersionsTo, LoadVersion, LoadVersionForOverwriting, Load / first open with the index}: for every storage-call index, the operation reports an error through one of its error channels or returns exactly the fault-free result; a write operation under a fault never reports success unless the database reopens to the post-state, and otherwise reopens to the pre- or post-state.",
-         "One failing call per execution (pairs in thorough) instead of random multi-fault sequences. Bounded: depth 4 (quick) / 6 (thorough), 3 keys, <= 3 versions.",
+         "One failing call per execution (pairs in thorough) instead of random multi-fault sequences. Imports are operations too (every call of an export+import failing), and one fixed 6000-leaf import that spans two importer batches is run with each of its batch writes failing (fast index on and off): success only with the complete imported tree (re-exported and compared), failure only with the state before or the complete state after. Bounded: depth 4 (quick) / 6 (thorough), 3 keys, <= 3 versions.",
          "DESIGN.md §4 C17"),
  "C05": ("crash-point enumeration on top of explicit-state exploration: for every explored state and every interruptible operation, every prefix of the operation's physical write sequence is materialised, reopened and compared with the crash-free pre/post states; then the operation is repeated",
-         "For every state of a bounded exploration (3 keys, values long enough that commits and index builds of 2-3 keys span several flushes) and every enabled SaveVersion / DeleteVersionsTo(n) / LoadVersionForOverwriting(v) / first open with the fast index: all cuts 0..m between consecutive physical writes, flush thresholds {150,250,400,1000,default}, fast on/off, each image reopened with the index on and off: Load succeeds, the image equals the crash-free pre- or post-state on every read path (tree walk, index, iteration, hashes), and repeating the operation reaches the crash-free result.",
-         "Fault model of the statement (atomic ordered batch writes). Import commits are covered by C10/C17. Bounded: depth 5 (quick) / 7 (thorough), <= 4 versions.",
+         "For every state of a bounded exploration (3 keys, values long enough that commits and index builds of 2-3 keys span several flushes) and every enabled SaveVersion / DeleteVersionsTo(n) / LoadVersionForOverwriting(v) / first open with the fast index: all cuts 0..m between consecutive physical writes, flush thresholds {110,150,250,400,1000,default}, fast on/off, each image reopened with the index on and off: Load succeeds, the image equals the crash-free pre- or post-state on every read path (tree walk, index, iteration, hashes), and repeating the operation reaches the crash-free result.",
+         "Fault model of the statement (atomic ordered batch writes). Import commits: every cut of the physical writes of export+import transitions and of one fixed 6000-leaf import spanning two importer batches (fast index on and off). Bounded: depth 5 (quick) / 7 (thorough), <= 4 versions.",
          "DESIGN.md §4 C05"),
  "C10": ("explicit-state exploration with export/import points (both codecs) and reference export streams, plus exhaustive enumeration of a finite language of hostile import streams",
          "Fidelity: in every explored state every retained version exports exactly the reference post-order stream; export+import (plain and compressed) into an empty store is a transition of the exploration, after which reads, hashes, proofs, storage reachability and all further commit hashes are compared with the model. Totality: every ExportNode sequence of length <= 2 (thorough: <= 3, 1.7M) over a 120-symbol alphabet, every <= 1 (thorough: 2)-edit mutation of valid streams, hostile delta-encoded keys, each ended by Commit or Close, plain and compressed: no panic, and nothing visible on a fresh instance unless Commit succeeded.",
-         "Bounded alphabets as listed; > 10 000-node imports only by one fixed 6 000-leaf tree (thorough).",
+         "Bounded alphabets as listed; > 10 000-node imports only by one fixed 6 000-leaf tree (hash, complete re-exported stream, iteration on a fresh instance and one continuation commit compared with the source, both codecs).",
          "DESIGN.md §4 C10"),
  "C13": ("explicit-state exploration with the raw storage decoded by an independent codec (direction 1) and databases written by an independent encoder opened by the library (direction 2), plus exhaustive enumeration of short byte strings and mutations of valid encodings for every decoder",
          "Direction 1: in every explored state the stored bytes decode (check/ref/codec.go) to exactly the reference tree of every retained version (keys, values, heights, sizes, node versions, hashes, child links, root markers). Direction 2: for every explored state a database written by the independent encoder from the reference trees is opened by iavl (fast index off and on) and all reads, hashes and version bookkeeping equal the model. Totality: all byte strings of length <= 2 (thorough: <= 3) and 1-2 byte mutations / truncations / extensions of valid encodings fed to MakeNode, MakeLegacyNode, fastnode.DeserializeNode, encoding.Decode{Bytes,Uvarint,Varint} and the reference-root reader: no panic, bounded allocation.",
@@ -48,11 +48,11 @@ claimed = {
          "Bounded: 2-3 keys x 2 values, depth <= 8, <= 4 versions.",
          "DESIGN.md §4 C15"),
  "C04": ("explicit-state exploration of commit / no-op commit / prune / rollback / reopen / export-pin histories; after every step contents, hashes and proofs of every later version are compared with the model, live and on a fresh instance",
-         "All histories over {Set, Remove, SaveVersion with and without writes, DeleteVersionsTo(n) for every n (one or many versions per call, repeated), LoadVersionForOverwriting, reopen, export open/close, ReadEverything} up to the bounds in the evidence, under flush thresholds {150,400,default} x cache {0,3,1000} x fast on/off: after every step every retained version's contents, root hash and proofs equal the model, also on a fresh instance opened on a copy of the storage; requests that must be rejected (n >= latest, version pinned by an open export) return an error and leave the storage byte-identical.",
+         "All histories over {Set, Remove, SaveVersion with and without writes, DeleteVersionsTo(n) for every n (one or many versions per call, repeated), LoadVersionForOverwriting, reopen, export open/close, ReadEverything} up to the bounds in the evidence, under flush thresholds {150,400,default} x cache {0,3,1000} x fast on/off: after every step every retained version's contents, root hash and proofs equal the model, also on a fresh instance opened on a copy of the storage; requests that must be rejected (n >= latest, version pinned by an open export - up to two exports open at a time, every exporter closed twice) return an error and leave the storage byte-identical.",
          "Bounded: 2-3 keys, depth <= 11 (narrow alphabet) / <= 8 (full alphabet), <= 4 maintenance steps.",
          "DESIGN.md §4 C04"),
  "C09": ("explicit-state exploration with a rollback-heavy alphabet, all model oracles after every step, and a twin instance replaying only the surviving history (differential oracle on the raw tree-node records and index)",
-         "All histories with Rollback, LoadVersionForOverwriting(v) and DeleteVersionsFrom(v+1)+LoadVersion(v) for every retained v (incl. latest and first), nested, after pruning, followed by further writes/commits/prunes/reopens: after every step all reads, hashes, version bookkeeping, fast-index coherence and storage reachability equal the model (live and after restart), and the store's tree-node records are byte-identical to those of a twin that replays only the surviving history.",
+         "All histories with Rollback, LoadVersionForOverwriting(v) and DeleteVersionsFrom(v+1)+LoadVersion(v) for every retained v (incl. latest and first), nested, after pruning, followed by further writes/commits/prunes/reopens: after every step all reads, hashes, version bookkeeping, fast-index coherence and storage reachability equal the model (live and after restart), and the store's tree-node records equal those of a twin that replays only the surviving history (byte for byte, after resolving root references and child links the way GetRoot/GetNode do).",
          "Bounded: 1-3 keys, depth <= 10, cache {0,2,3,1000}, fast on/off.",
          "DESIGN.md §4 C09"),
  "C02": ("explicit-state exploration of write/commit/maintenance histories on the real code with an independent reference implementation of the IAVL+ rules as hash oracle; read-only calls explored as bounded deviations",
@@ -61,7 +61,7 @@ claimed = {
          "DESIGN.md §4 C02"),
  "C03": ("explicit-state exploration; in every state every proof of every retained version and of the working tree is verified with the upstream ics23 verifier against the reference root hash, including negative verifications",
          "For every explored state, every retained non-empty version and the working tree, and every probe key (present, below min, above max, between neighbours, prefix/extension): right kind of proof, verifies against the reference root, carries the stored value / the adjacent neighbours, and does not verify for another value, another key, the opposite claim, or the root of another version where the claim is false; wrong-kind requests are errors.",
-         "Trusted: github.com/cosmos/ics23/go v0.11.0 and check/ref. Values are non-empty (ics23 rejects empty values by specification).",
+         "Trusted: github.com/cosmos/ics23/go v0.11.0 and check/ref. Values are non-empty (ics23 rejects empty values by specification). Beyond the depth bound: fixed 40/150/400-key trees (3 insertion orders, two versions each) in which every key and every gap is proved and verified with all negative checks.",
          "DESIGN.md §4 C03"),
  "C07": ("explicit-state exploration in which every (re)open chooses fast index on/off and the version to load; oracle = indexed answers vs tree-walk answers vs model, plus the decoded raw index after commits and opens",
          "In every explored state with the index enabled: Get vs GetWithIndex, MutableTree.Iterator/Iterate (index+overlay, both directions) vs tree walk vs model, GetVersioned and ImmutableTree.Get vs tree walk for every retained version; after commit/open/load/rollback/import the raw f-entries (independent decoder) equal the latest version's pairs and the label names the latest version.",
@@ -69,7 +69,7 @@ claimed = {
          "DESIGN.md §4 C07"),
  "C08": ("explicit-state exploration of tree states; in every state all (start,end,direction) triples from a bound set are run on every iteration interface and compared with the model's range",
          "For every explored state (empty, committed, working with uncommitted additions/updates/removals, historical versions) and all (start,end,direction) over nil, empty, stored keys, neighbours, prefixes, extensions, outside keys: ImmutableTree.Iterator (walk or persisted index), the explicit walk iterator, MutableTree.Iterator (index + uncommitted changes), IterateRange, IterateRangeInclusive, Iterate yield exactly the model's sequence, end invalid for good, and callbacks that stop at every position stop there.",
-         "Bounded: 3 keys x values {x, empty}, <= 3 versions, depth bound in the evidence.",
+         "Bounded: 3 keys x values {x, empty}, <= 3 versions, depth bound in the evidence. Beyond it: a fixed 40-key (thorough: 17/40/150) scenario with two committed versions and uncommitted additions, updates and removals, 15 x 15 bounds x 2 directions on every interface under 3 configurations.",
          "DESIGN.md §4 C08"),
  "C11": ("explicit-state exploration of insert/remove/commit histories plus enumerated families of large-tree scenarios; oracle = size of the model, AVL bound, rank/key inverse, and storage reads counted by the instrumented store",
          "All histories of inserts/removes/commits over a 7-key set up to the depth bound (plus maintenance histories on 3 keys): Size equals the model, h <= 1.4405 log2(n+2), GetByIndex/GetWithIndex inverse and sorted (reads oracle), and with cache 0 / index off every Get, Has, GetWithIndex, GetByIndex reads <= 2h+2 stored nodes and GetProof <= 10h+10 (counted by vstore). Beyond the depth bound: 1500-key trees in 3 insertion orders (every key and gap probed for the read bounds), removal of every key of 256/1500-key trees in 5 orders with the bound checked after every removal, and for every root-to-leaf path of 32/64/256-key trees the removal of everything but a sparse set of survivors along that path.",
